@@ -86,21 +86,19 @@ def confirm(name, prop, src):
 def run(name, tier="quick", props=None):
     dst = os.path.join(SEEDED, name)
     meta = json.load(open(os.path.join(dst, "meta.json")))
-    d = f"/dev/shm/evo-seed-{os.getpid()}"
+    d = f"/dev/shm/evo-seed-{os.getpid()}-{name}"
     try:
         export_repo(d)
         r = subprocess.run(["git", "apply", "--whitespace=nowarn", os.path.join(dst, "patch.diff")], cwd=d, capture_output=True, text=True)
         if r.returncode != 0:
-            # written against an earlier /repo HEAD: let patch(1) place the hunks with some fuzz
-            r2 = subprocess.run("patch -p1 -F 3 --no-backup-if-mismatch < " + os.path.join(dst, "patch.diff"), shell=True, cwd=d, capture_output=True, text=True)
-            if r2.returncode != 0:
-                raise SystemExit(f"{name}: patch.diff applies neither with git apply nor with patch -F3:\n{r.stderr}\n{r2.stdout}")
-            meta["applied_with_fuzz_at_head"] = True
+            raise SystemExit(f"{name}: patch.diff does not apply to /repo's HEAD - run tools/refresh_patches.py:\n{r.stderr}")
         for prop in (props or [meta["property"]]):
             t0 = time.time()
             cmd = ["/venv/bin/python", os.path.join(VERIF, "bin/check"), prop, "--tier", tier, "--no-selftest"]
             if os.environ.get("SENS_BUDGET"):
                 cmd += ["--budget", os.environ["SENS_BUDGET"]]
+            if os.environ.get("SENS_WORKERS"):
+                cmd += ["--workers", os.environ["SENS_WORKERS"]]
             c = subprocess.run(cmd, cwd=VERIF, capture_output=True, text=True, env=dict(os.environ, EVO_VERIF_REPO=d, EVO_VERIF_NO_EVIDENCE="1"))
             sigs = [l.strip() for l in c.stdout.splitlines() if "violation class=" in l]
             viol = [l for l in c.stdout.splitlines() if l.startswith("VIOLATION")]
